@@ -364,23 +364,26 @@ def case_poly(ctx, cfg):
         for k in (1, 2, 4, 5):
             polys = quads[:k]
             PC = G.PolygonCollection([G.Polygon(*[P(G, lift(*v), 1) for v in poly]) for poly in polys])
-            for q in qs:
-                if emb == "2d" and any(pip(poly, q) == "inside" for poly in polys):
-                    ctx.skipped += 1
-                    continue
-                if emb == "2d":
-                    want = np.array([float(min(seg_dist(q, poly[i], poly[(i + 1) % 4]) for i in range(4))) for poly in polys])
-                else:
-                    # query points in the plane of the polygons: distance 0 inside and on the boundary
-                    want = np.array([0.0 if pip(poly, q) != "outside" else float(min(seg_dist(lift(*q), lift(*poly[i]), lift(*poly[(i + 1) % 4])) for i in range(4))) for poly in polys])
-                ctx.state((name, emb, k, q))
-                qq = P(G, lift(*q), 1)
-                for x, y, tag in ((PC, qq, "collection,point"), (qq, PC, "point,collection")):
-                    d, e = ctx.call(G.dist, x, y)
-                    ctx.trace(k)
-                    if e is not None or np.shape(d) != (k,) or not np.allclose(d, want, atol=1e-7):
-                        ctx.fail(f"dist:polygoncollection:{emb if emb == '2d' else '3d'}:{type(e).__name__ if e is not None else 'value'}", "dist", {"polygons": polys, "embedding": emb, "q": q, "order": tag}, want, e if e is not None else d)
-                        return
+            for phase in ("fresh", "after-area-was-read"):
+              if phase != "fresh":
+                  _ = ctx.call(lambda: (PC.area, PC.edges))
+              for q in qs[:: (1 if phase == "fresh" else 3)]:
+                  if emb == "2d" and any(pip(poly, q) == "inside" for poly in polys):
+                      ctx.skipped += 1
+                      continue
+                  if emb == "2d":
+                      want = np.array([float(min(seg_dist(q, poly[i], poly[(i + 1) % 4]) for i in range(4))) for poly in polys])
+                  else:
+                      # query points in the plane of the polygons: distance 0 inside and on the boundary
+                      want = np.array([0.0 if pip(poly, q) != "outside" else float(min(seg_dist(lift(*q), lift(*poly[i]), lift(*poly[(i + 1) % 4])) for i in range(4))) for poly in polys])
+                  ctx.state((name, emb, k, q))
+                  qq = P(G, lift(*q), 1)
+                  for x, y, tag in ((PC, qq, "collection,point"), (qq, PC, "point,collection")):
+                      d, e = ctx.call(G.dist, x, y)
+                      ctx.trace(k)
+                      if e is not None or np.shape(d) != (k,) or not np.allclose(d, want, atol=1e-7):
+                          ctx.fail(f"dist:polygoncollection:{emb if emb == '2d' else '3d'}:{phase}:{type(e).__name__ if e is not None else 'value'}", "dist", {"polygons": polys, "embedding": emb, "q": q, "order": tag, "phase": phase}, want, e if e is not None else d)
+                          return
         return
     poly = POLYS2[name]
     n = len(poly)
